@@ -114,15 +114,67 @@ class _Expander(ast.NodeTransformer):
         return node
 
 
-def expand_ast(expr: ast.AST, func: FuncInfo, defs: Dict[str, ast.AST] = None) -> ast.AST:
+def _load_names(node: ast.AST):
+    cached = getattr(node, "_pgv_names", None)
+    if cached is None:
+        cached = frozenset(n.id for n in ast.walk(node) if isinstance(n, ast.Name) and isinstance(n.ctx, ast.Load))
+        try:
+            node._pgv_names = cached
+        except Exception:
+            pass
+    return cached
+
+
+def _defs_key(expr: ast.AST, defs):
+    """Identity of the part of `defs` an expansion of `expr` can consult (None = nothing to substitute)."""
+    seen = {}
+    work = [n for n in _load_names(expr) if n in defs]
+    if not work:
+        return None
+    while work:
+        n = work.pop()
+        if n in seen:
+            continue
+        d = defs[n]
+        seen[n] = id(d)
+        work.extend(m for m in _load_names(d) if m in defs and m not in seen)
+    return tuple(sorted(seen.items()))
+
+
+_EXPAND_MEMO: Dict = {}
+
+
+def _expanded(expr: ast.AST, defs):
+    """(expanded tree, its text); memoised on the expression and the definitions it can reach."""
     import copy
 
+    key = _defs_key(expr, defs)
+    if key is None:
+        return expr, None
+    mk = (id(expr), key)
+    hit = _EXPAND_MEMO.get(mk)
+    if hit is not None and hit[0] is expr:
+        return hit[1], hit[2]
+    new = _Expander(defs).visit(copy.deepcopy(expr))
+    new = clear_norm_cache(ast.fix_missing_locations(new))
+    if len(_EXPAND_MEMO) > 200000:
+        _EXPAND_MEMO.clear()
+    # keep `expr` and the definitions alive so the ids in the key stay valid
+    _EXPAND_MEMO[mk] = (expr, new, None, [defs[n] for n, _ in key])
+    return new, None
+
+
+def expand_ast(expr: ast.AST, func: FuncInfo, defs: Dict[str, ast.AST] = None) -> ast.AST:
     if defs is None:
         defs = single_defs(func) if func is not None else {}
     if not defs:
         return expr
     try:
-        return clear_norm_cache(ast.fix_missing_locations(_Expander(defs).visit(copy.deepcopy(expr))))
+        import copy
+
+        new, _ = _expanded(expr, defs)
+        # callers may edit the result: hand out a private copy of memoised trees
+        return new if new is expr else copy.deepcopy(new)
     except Exception:
         return expr
 
@@ -130,15 +182,13 @@ def expand_ast(expr: ast.AST, func: FuncInfo, defs: Dict[str, ast.AST] = None) -
 def expand(expr: ast.AST, func: FuncInfo, defs: Dict[str, ast.AST] = None) -> str:
     """Normalised text of expr with locals replaced by their definitions: the
     flow-sensitive snapshot `defs` when given, else single-assignment locals."""
-    import copy
-
     if defs is None:
         defs = single_defs(func) if func is not None else {}
     if not defs:
         return norm(expr)
-    new = _Expander(defs).visit(copy.deepcopy(expr))
     try:
-        return ast.unparse(ast.fix_missing_locations(new))
+        new, _ = _expanded(expr, defs)
+        return norm(new)
     except Exception:
         return norm(expr)
 
@@ -271,7 +321,22 @@ def _int(node) -> Optional[int]:
 def fact_min_len(f: Fact, subject: str) -> int:
     """Lower bound on len(subject) implied by one decided test (0 = nothing)."""
     t, func = f.truth, f.func
-    n = expand_ast(f.node, func, f.defs)
+    defs = f.defs if f.defs is not None else (single_defs(func) if func is not None else {})
+    mk = ("fml", id(f.node), _defs_key(f.node, defs) if defs else None, t, subject)
+    hit = _EXPAND_MEMO.get(mk)
+    if hit is not None and hit[0] is f.node:
+        return hit[1]
+    res = _fact_min_len_uncached(f, subject, defs)
+    _EXPAND_MEMO[mk] = (f.node, res, [defs[k] for k, _ in (mk[2] or ())])
+    return res
+
+
+def _fact_min_len_uncached(f: Fact, subject: str, defs) -> int:
+    t, func = f.truth, f.func
+    try:
+        n, _ = _expanded(f.node, defs) if defs else (f.node, None)  # shared tree: read only
+    except Exception:
+        n = f.node
 
     def is_subj(e) -> bool:
         return norm(e) == subject
